@@ -118,6 +118,24 @@ try:
 except ImportError:
     pass
 
+try:
+    import libhost_c05  # C05: calls whose flattened arguments / requests are literals a caller writes; repeated with the same objects
+    OPS.update(libhost_c05.OPS)
+except ImportError:
+    pass
+
+try:
+    import libhost_c09  # C09: `_wrapped_methods` table of any transport (incl. rest_asyncio), by property name
+    OPS.update(libhost_c09.OPS)
+except ImportError:
+    pass
+
+try:
+    import libhost_c15  # C15: run the emitted keyword fix-up transformer on source text
+    OPS.update(libhost_c15.OPS)
+except ImportError:
+    pass
+
 
 def main():
     ops = json.loads(sys.stdin.read())
